@@ -44,6 +44,25 @@ func newW1Pop(t *testing.T, rc *RunCtx, cfg SchedCfg, plan *FaultPlan, pop *Popu
 	return &concWorld{rc: rc, t: t, pop: pop, s: s, inst: inst, ledger: NewLedger()}
 }
 
+// newW1Cfg is newW1Pop with the instance's configuration given (directory, population and, when absent, permissions and
+// administrator addresses are filled in).
+func newW1Cfg(t *testing.T, rc *RunCtx, cfg SchedCfg, pop *Population, ic InstCfg) *concWorld {
+	s := NewSched(rc, cfg)
+	s.KeyName = pop.KeyName
+	ic.Dir, ic.Pop = NewRunDir(t), pop
+	if ic.Permissions == nil {
+		ic.Permissions = FullPermissions("client1", "client2")
+	}
+	if ic.AdminIPs == nil {
+		ic.AdminIPs = []string{"10.0.0.1"}
+	}
+	inst, err := NewInstance(s, "i0", ic)
+	if err != nil {
+		t.Fatalf("instance: %v", err)
+	}
+	return &concWorld{rc: rc, t: t, pop: pop, s: s, inst: inst, ledger: NewLedger()}
+}
+
 func (w *concWorld) close() {
 	w.s.AbortBackground(nil)
 	if w.twin != nil {
